@@ -2,8 +2,8 @@
    Statements only; proofs in Ctl/ParseProofs.v, Pgm/OpsProofs.v, Pgm/SessionProofs.v. *)
 From Coq Require Import List Bool ZArith NArith QArith.
 Import ListNotations.
-From Femto Require Import Base.Num Ctl.Tok Ctl.Machine Ctl.ParseProofs Ctl.Dwell Geo.Rigid Pgm.Ops Pgm.OpsProofs
-  Pgm.SessionProofs.
+From Femto Require Import Base.Num Ctl.Tok Ctl.Machine Ctl.ParseProofs Ctl.Dwell Ctl.Safety Geo.Rigid Pgm.Ops Pgm.OpsProofs
+  Pgm.SessionProofs Pgm.SafeProofs Pgm.CalmProofs Pgm.SessionSafe.
 
 (* the parser inverts the printer for every loop tree *)
 Theorem C03_parse_flatten : forall l, wf l = true -> parse (flatten l) = Some l.
@@ -21,6 +21,72 @@ Theorem C03_balanced : forall c ops file d o,
     /\ (d == dw (tree_of pre body))%Q.
 Proof. exact session_tree. Qed.
 Print Assumptions C03_balanced.
+
+(* The main statement.  For every configuration with printable digits (and a positioning speed that does not print as
+   F0.000000), every tree of public operations of the property's quantifier - writes of closed paths, positioning,
+   homing, nested REPEAT / FOR / axis-rotation blocks, dwell, comments, set-home, load / call / buffered call / remove,
+   declarations, tic / toc, and user code raising at any position (pub: no direct shutter command, no raw instruction) -
+   the file that the session writes parses to a loop tree, and on the reference controller, from any machine state with
+   the rotation off and for any well-behaved sub-programs, that tree
+     - raises no error other than a call / removal of a program that is not loaded (loop variables are declared, feeds
+       are positive, numbers are fixed-point, loop counts positive) - the exception is the recorded finding below;
+     - ends with the shutter closed;
+     - ends with the axis rotation deactivated.
+   This holds for the file written when user code raised inside the context, too. *)
+Theorem C03_no_error_shutter_rotation : forall c ops file d o,
+  cfg_ok c -> pubs ops = true ->
+  session c ops = Written file d o ->
+  exists tree, parse file = Some tree /\
+    forall call, call_wb call -> forall m, mrot m = false ->
+      only_notloaded (snd (run_list call m tree)) /\
+      msh (fst (run_list call m tree)) = false /\
+      mrot (fst (run_list call m tree)) = false.
+Proof. exact session_safe. Qed.
+Print Assumptions C03_no_error_shutter_rotation.
+
+(* at every operation boundary inside the session the shutter is tracked closed and the emitted tree, run from a
+   machine with the shutter closed, ends with the shutter closed and the rotation off or untouched *)
+Theorem C03_operation_boundaries : forall call,
+  (forall d m p, minv d m -> minv d (fst (call m p)) /\ only_notloaded (snd (call m p))) ->
+  (forall m p, msh (fst (call m p)) = msh m /\ mrot (fst (call m p)) = mrot m) ->
+  forall D c, cfg_ok c -> forall o, pub o = true -> forall st,
+  c_sh st = false -> sub (c_dvars (final (exec c o st))) D ->
+  c_sh (final (exec c o st)) = false /\ calm call D (emitted (exec c o st)).
+Proof. intros call H1 H2 D c Hc o Hp st. exact (proj2 (exec_CS call H1 H2 D c Hc o Hp st)). Qed.
+Print Assumptions C03_operation_boundaries.
+
+(* positioning closes the shutter first, whatever the tracked state: every move it commands is shutter-closed *)
+Theorem C03_positioning_moves_closed : forall call c st x y z sp m, msh m = c_sh st ->
+  c_sh (final (do_move_to c st x y z sp)) = false /\
+  moves_closed (snd (run_list call m (emitted (do_move_to c st x y z sp)))).
+Proof. exact move_to_closes_first. Qed.
+Print Assumptions C03_positioning_moves_closed.
+
+(* the opaque sub-program of the harness is well behaved; non-vacuity of the main statement on a session with a
+   rotation block, nested loops, a closed path and an exception inside the inner loop *)
+Theorem C03_ext_call_well_behaved : call_wb ext_call.
+Proof. exact ext_call_wb. Qed.
+Print Assumptions C03_ext_call_well_behaved.
+
+Example C03_example :
+  let c := {| laser_ok := true; laser_z := false; digits := 6; long_p := Some (1#2); short_p := Some (1#10);
+              speed_pos := 5; home := false; aero := true; tc := neutral |} in
+  let path := [ {| px := 0; py := 0; pz := 0; pf := 5; ps := 0 |}; {| px := 0; py := 0; pz := 0; pf := 1; ps := 1 |};
+                {| px := 1; py := 0; pz := 0; pf := 1; ps := 1 |}; {| px := 1; py := 0; pz := 0; pf := 1; ps := 0 |} ] in
+  let ops := [ODvar [7%N]; OAxisRot true [OFor (Some 7%N) (Some 2%Z) [ORepeat (Some 3%Z) [OWrite path; ORaise; OGoOrigin]]]] in
+  pubs ops = true /\
+  match session c ops with
+  | Written file d (Raised 3%N) =>
+      match parse file with
+      | Some tree => let '(m, ev) := run_ext m0 tree in
+                     (match errors ev with [] => true | _ => false end) && negb (msh m) && negb (mrot m)
+                     && (6 <=? Z.of_nat (List.length (moves ev)))%Z
+      | None => false
+      end
+  | _ => false
+  end = true.
+Proof. vm_compute. split; reflexivity. Qed.
+Print Assumptions C03_example.
 
 (* calls to (and removals of) programs that are not loaded are refused and emit nothing *)
 Theorem C03_refuses_unloaded : forall c st f task, f_pgm f = true -> mem (f_base f) (c_loaded st) = false ->
